@@ -94,6 +94,16 @@ CHECKS = {
    text='Theorems C19_never_panics, C19_bad_variant_rejected (skeleton of the two panic sites and of variant shapes), C19_greedy_complete / C19_greedy_sound (the repaired test finds an unbounded greedy dot repetition at any depth and only those), and regression lemmas for F6, F7, F8 (closed). Per run: ~90 curated must-reject definitions by class, seeded random malformed definitions and the repo corpus through generate() under catch_unwind; the same sources through rustc with the real proc macro (scanned for "proc-macro derive panicked"; every rejected definition must carry an error); check_for_greedy_all equals the Coq test on every captured HIR and no greedy leaf is accepted without allow_greedy. Empty-match / UTF-8 / undefined-subpattern rejections are decided by C03 / C04 / C11.',
    design='DESIGN.md sections 7 (C19), 9 (F6-F8)',
    note='PARTIAL: panics inside syn / regex-syntax / regex-automata and rustc itself are outside the model; termination is observed per call, not proved; the skeleton covers logos\' own panic sites only.'),
+ 'C14': dict(
+   technique='Coq proof on the state-machine model of the public Lexer API (pool of lexers; next is the engine model) + differential run of random API histories',
+   text='Theorems C14_step_only_current (an operation never changes a lexer other than the current one: clones and originals are independent), C14_clone_is_copy, C14_morph_preserves, C14_morph_back, C14_spanned_eq_next, C14_bump_in_range (closed). Per run: thousands of random histories of next / spanned / in-range bump / clone / switch / morph over pairs of compiled definitions sharing a source (str and bytes, ordinary and partial mode, both generators): after every operation span(), slice() == source[span], remainder() == source[end..] and the result of next are compared with the extracted run_history.',
+   design='DESIGN.md section 7 (C14)',
+   note='In the model slice()/remainder() are source[span] by definition; their agreement with the implementation is the correspondence. Extras are () in the compiled pairs.'),
+ 'C16': dict(
+   technique='Coq proof that a sorted permutation is unique (hash iteration modelled as an arbitrary permutation) + repeated generation under fresh hash seeds in threads and processes',
+   text='Theorems C16_collect_then_sort_deterministic (whatever order a hash container was iterated in, collecting and sorting by a distinct key gives the same list) and C16_sorted_with_duplicates_unique (closed): the reason each of the five sorted sites is order-independent. Per run: every definition of the corpora (incl. rejected ones, several conflicts, many edges and LUT masks), both generators: generate() in several fresh processes x several fresh threads (every HashMap draws a new RandomState): generated text and captured graph byte-identical; logos-cli twice then --check.',
+   design='DESIGN.md section 7 (C16)',
+   note='PARTIAL: that the sorted sites are the only order-sensitive ones is supported by the runs, not proved about the Rust code; "every hash seed" = "every permutation".'),
 }
 
 def main():
